@@ -21,12 +21,17 @@ def run(ctx):
     # a persistent ramp of length 10..11 (thorough ..13) under EVERY null mask: interior gaps make lags beyond the
     # number of valid observations meaningful
     rr = ctx.tlc("ramp", "MCComposite", "MCComposite_ramp.cfg" if ctx.quick else "MCComposite_ramp_thorough.cfg", workers=12, timeout=3000)
+    # level shifts (m values at one level, m at another): the autocorrelation meets 1/2 EXACTLY at lag m/2 - the
+    # tie the bisection has to decide; both resolutions are behaviours, the replay follows the library's own value
+    rs = ctx.tlc("shift", "MCComposite", "MCComposite_shift.cfg", workers=8, timeout=3000)
     binp = ctx.build("tvh-agg")
     ctx.harness("composite", binp, ["replay-composite", "--in", r["emitted"]])
     ctx.harness("ramp", binp, ["replay-composite", "--in", rr["emitted"]])
+    ctx.harness("shift", binp, ["replay-composite", "--in", rs["emitted"]])
     ctx.assumptions += BASE_ASSUMPTIONS + [
-        "the exact half-life is required of monotone above-1/2 patterns only; a series with a lag whose autocorrelation is "
-        "exactly 1/2 is compared on range and termination only (the float comparison may fall either way)",
+        "the exact half-life is required of monotone above-1/2 patterns only; where a lag's autocorrelation is exactly 1/2 "
+        "TLC emits one behaviour per resolution and the replay follows the one the library's own autocorrelation "
+        "(vcorr_pearson of the series and its lag, checked under C11) takes on that input",
         "integer element types cannot hold the null that lagging introduces: half_life is driven with float and optional "
         "series (DESIGN 5.8)",
         "non-termination is detected by a 5 s watchdog",
